@@ -1,4 +1,17 @@
-"""C12 — freq_response / cascade / parallel / dft / FIR time domain / histories of mutable banks.
+"""C12 — freq_response / cascade / parallel / dft / FIR time domain / histories of mutable banks / the CALL.
+
+The call (entries "call", "dftcall"): `freq_response` is `@elementwise("freq", 1)` around a raw method.  A case is
+a target (filter of any class, cascade / parallel bank, nested), a list of positional and a dict of keyword
+arguments (call through the bound method or through the class, `self` possibly by keyword) holding frequency
+objects of 33 python kinds (number spellings, None, str, list/tuple/deque and subclasses, set/frozenset, generator,
+map, filter, range, enumerate, zip, zip_longest, Stream, Stream subclass, thub, chain, dict, bytes, bytearray,
+list_iterator, tuple_iterator, dict_keys, dict_values, reversed), some elements not numbers.  The impl reports the
+exception of the call, or the scalar, or the eager container (its type must be the type of the frequency object the
+wrapper looked at), or — for a lazy result — what `reads` successive next() show (value / exception / StopIteration).
+The Lean side runs the wrapper model (`freqCall`: dispatch, replaced argument, python's binding in every element
+call) and the specification (`freqCallSpecFull`); Props.C12.freq_call_model_eq_spec proves them equal for all calls.
+`dft` is called with every split of (blk, freqs, normalize) into positional / keyword arguments, `normalize`
+omitted or spelled True/False/1/0/None/"yes"/""/2.5/0.0/[], blocks with and without len().
 
 Tie (float regime): the impl computes with Python complex floats, the Lean model with exact
 Gaussian rationals.  The comparison is driven from the exact side: points w = e^{-j omega} on the
@@ -42,9 +55,19 @@ RULE = ("filters ZFilter/LinearFilter(b, a) and z-expressions with small int / d
         "steps over a heap of 1..3 (nested, shared) banks and 2..5 filters: in-place list operations (13 kinds, on the "
         "root or through an inner reference) interleaved with >= 2 uses (freq_response / numpoly,denpoly / is_lti / "
         "call), at least one list operation between the first and the last use, frequencies shared between the uses, "
-        "every step compared.  Non-trivial = the impl returned "
+        "every step compared; CALLS: 14 call shapes of freq_response (frequency by position / by keyword, through the "
+        "method or the class, self by keyword, keyword order, stray keyword, frequency twice, extra positional, "
+        "nothing, wrong keyword, self missing) x 33 kinds of frequency object (sizes 0..4, non-numbers among the "
+        "elements) x filter classes / cascade / parallel / nested targets, lazy results read len+2 times; dft with every "
+        "positional/keyword split, 11 spellings of normalize incl. omitted, 9 block kinds (5 with len(), 4 read-once), "
+        "10 kinds of frequency object, unbindable calls.  Non-trivial = the impl returned "
         "at least one finite non-zero value, a predicted nan or a predicted exception; distinct = distinct JSON case")
 TRUSTED = [
+    "the call: hand-written Lean model ALV/Model/C12Call.lean of lazy_misc.elementwise's wrapper (decorator default, "
+    "positional test, kwargs[name], Iterable / STR_TYPES / SOME_GEN_TYPES / Stream tests, replaced argument, "
+    "type(arg)(data)), of python's binding of (self, freq) resp. (blk, freqs, normalize=True), of generator "
+    "expressions (a generator that raised is finished) — the classification python kind -> model Kind "
+    "(harness PYKINDS) and `truthiness of the normalize object` are computed by the harness",
     "histories: hand-written Lean model of python's list operations on a heap of banks (pyIndex / pyClamp / slice "
     "bounds; `bank *= k` binds a NEW bank because FilterList defines __mul__) — validated step by step against the "
     "identity of the members of the real lists; uses are answered on the snapshot (Bank.resp / FIR loop)",
@@ -63,18 +86,26 @@ ASSUMPTIONS = [
     "denominator bounded away from zero at the probed frequency (a-priori rounding bound <= 2e-10), except the exact "
     "nan case: denominator exactly zero at omega = 0 (w = 1 is the only point of the circle that floats hit exactly)",
     "frequency containers: scalar, list, tuple, deque, set, frozenset, Stream (finite and endless), generator, map, range; "
-    "list_iterator / dict / str are not supported container kinds of elementwise (TypeError today)",
+    "list_iterator / dict_keys / reversed (TypeError always), dict / bytes (TypeError unless empty) and str (not "
+    "iterated) are modelled as what elementwise does today",
+    "the call: a container handed to a BANK as one element (nested containers) and the filter object itself as a "
+    "frequency are outside the model (`unmodelled`, never generated); numpy arrays are not available here",
 ]
 
 MANIFEST = {
-    "text": ("Lean 4 theorems (37, no sorry/axiom) about a hand-written executable model of freq_response "
+    "text": ("Lean 4 theorems (50, no sorry/axiom) about a hand-written executable model of freq_response "
              "(LinearFilter.__init__ normalisation, Poly.__call__ paths, nan test), Cascade/Parallel banks to any "
              "nesting depth, dft and the FIR instance of the generated filter loop: transfer function in every field "
              "and over C at w = exp(-j omega), cascade = product, parallel = sum — for the bank as it is NOW after any "
              "history of in-place list operations and uses on a heap of nested / shared banks (uses are pure and "
              "depend only on the snapshot) —, FIR loop = convolution, "
              "DFT(impulse response) = freq_response, steady state / transient of complex exponentials, dft sum / "
-             "linearity / DC mean, and the cast Q[i] -> C of the executable evaluator; tied to /repo by a differential "
+             "linearity / DC mean, and the cast Q[i] -> C of the executable evaluator; the CALL: the elementwise wrapper "
+             "with python's argument binding equals, for every list of positional and dict of keyword arguments, the "
+             "per-element broadcast over the object bound to freq (scalar -> scalar, list/tuple/deque/set -> same "
+             "kind, generator/Stream/chain -> lazy, read semantics with exceptions mid-stream; unbindable calls -> "
+             "TypeError per element, KeyError without frequency object), dft's default / truthiness / read-once "
+             "blocks / binding; tied to /repo by a differential "
              "correspondence in the float regime (exact Gaussian-rational value vs impl float, a-priori rounding bound)"),
     "note": ("Trusted: Lean kernel, axioms propext/Classical.choice/Quot.sound, the Python correspondence harness "
              "(incl. the omega <-> w mapping by atan2 and the tolerance rule 1e-9*(1+|expected|) with a per-case "
@@ -371,7 +402,7 @@ def gen_tree(rng, maxlen, big):
         if not tree_ok(tree, pts):
             continue
         return {"entry": "tree", "tree": tree, "kind": kind, "pts": [genc(w) for w in pts],
-                "wrap": rng.random() < 0.5}
+                "wrap": rng.random() < 0.5, "by": rng.choice(["pos", "pos", "kw"])}
     return None
 
 
@@ -436,7 +467,8 @@ def gen_freq(rng, maxlen, big):
         if cls == "zexpr" and (not f["b"] or all(gdec(x) == (0, 0) for x in f["a"])):
             cls = "ZFilter"
         return {"entry": "freq", "b": f["b"], "a": f["a"], "ctype": f["ctype"], "kind": kind,
-                "pts": [genc(w) for w in pts], "wrap": rng.random() < 0.5, "cls": cls}
+                "pts": [genc(w) for w in pts], "wrap": rng.random() < 0.5, "cls": cls,
+                "by": rng.choice(["pos", "pos", "kw"])}
     return None
 
 
@@ -455,7 +487,7 @@ def gen_freqd(rng, maxlen, big):
         if not well_conditioned([f], pts):
             continue
         return {"entry": "freqd", "bt": bt, "at": at, "ctype": ctype, "kind": kind,
-                "pts": [genc(w) for w in pts], "wrap": rng.random() < 0.5}
+                "pts": [genc(w) for w in pts], "wrap": rng.random() < 0.5, "by": rng.choice(["pos", "pos", "kw"])}
     return None
 
 
@@ -472,7 +504,7 @@ def gen_bank(rng, maxlen, big):
         if not well_conditioned(bank, pts, bkind):
             continue
         return {"entry": "bank", "bkind": bkind, "bank": bank, "kind": kind,
-                "pts": [genc(w) for w in pts], "wrap": rng.random() < 0.5}
+                "pts": [genc(w) for w in pts], "wrap": rng.random() < 0.5, "by": rng.choice(["pos", "pos", "kw"])}
     return None
 
 
@@ -843,6 +875,8 @@ def hist_use_op(rng, t, snap, pool, big, earlier=()):
     o = {"op": kind, "t": t}
     if kind == "freq":
         o["kind"] = rng.choice(HIST_KINDS)
+        if rng.random() < 0.35:
+            o["by"] = "kw"
     if kind in ("freq", "polys"):
         if o.get("kind") == "scalar":
             pts = [rng.choice(pool)]
@@ -909,6 +943,189 @@ def gen_hist(rng, maxlen, big):
     return None
 
 
+# ----------------------------------------------------------------------------
+# the CALL: every call shape x every kind of frequency object (entry "call"), dft as called ("dftcall")
+# ----------------------------------------------------------------------------
+# python kind -> model Kind (how `elementwise` treats the object / what type(arg)(data) does)
+PYKINDS = {
+    "float": "scalar", "int0": "scalar", "frac0": "scalar", "false": "scalar", "complex0": "scalar",
+    "negzero": "scalar", "none": "scalar", "str": "str",
+    "list": "seq", "tuple": "seq", "deque": "seq", "sublist": "seq", "subtuple": "seq",
+    "set": "hash", "frozenset": "hash",
+    "gen": "someGen", "map": "someGen", "filter": "someGen", "range": "someGen", "enumerate": "someGen",
+    "zip": "someGen", "zip_longest": "someGen",
+    "stream": "stream", "substream": "stream", "thub": "stream",
+    "chain": "chain",
+    "dict": "emptyOnly", "bytes": "emptyOnly", "bytearray": "emptyOnly",
+    "list_iterator": "noCtor", "tuple_iterator": "noCtor", "dict_keys": "noCtor", "dict_values": "noCtor",
+    "reversed": "noCtor",
+}
+ZERO_SPELLINGS = ("int0", "frac0", "false", "complex0", "negzero")
+TUPLE_ELEMS = ("enumerate", "zip", "zip_longest")        # their items are tuples: "nested" for the raw method
+EXTRA_NAMES = ("name", "foo", "w", "frequency", "freqs", "pos")
+
+
+class SubList(list):
+    pass
+
+
+class SubTuple(tuple):
+    pass
+
+
+def desc_pts(d):
+    """the number points of a descriptor"""
+    if d == "self":
+        return []
+    out = []
+    for x in d.get("items", []) + ([d["self"]] if "self" in d else []):
+        if isinstance(x, list):
+            out.append(gdec_pt(x))
+    return out
+
+
+def gen_desc(rng, big, leaf, scalar_bias=0.25):
+    """a frequency object: {"k": python kind, "self": elem (scalar kinds), "items": [elem ...]}"""
+    r = rng.random()
+    if r < scalar_bias:
+        k = rng.choice(["float"] * 6 + list(ZERO_SPELLINGS) + ["none", "str"])
+        if k == "float":
+            return {"k": k, "self": genc(rand_point(rng, big))}
+        if k in ZERO_SPELLINGS:
+            return {"k": k, "self": genc(SPECIAL["0"])}
+        return {"k": k, "self": "bad"}
+    k = rng.choice(["list", "tuple", "deque", "set", "frozenset", "gen", "stream"] * 3 +
+                   [x for x in PYKINDS if PYKINDS[x] not in ("scalar", "str")])
+    if k in TUPLE_ELEMS and not leaf:
+        k = "gen"
+    n = rng.choice([0, 0, 1, 1, 2, 2, 3, 4])
+    if k == "range":
+        return {"k": k, "items": [genc(SPECIAL["0"])] * rng.choice([0, 1, 1])}
+    if k in ("bytes", "bytearray"):
+        return {"k": k, "items": [genc(SPECIAL["0"])] * rng.choice([0, 0, 1, 2])}
+    if k in TUPLE_ELEMS:
+        return {"k": k, "items": ["nested"] * n}
+    pts = [rand_point(rng, big) for _ in range(n)]
+    if k in ("set", "frozenset", "dict", "dict_keys"):
+        pts = sorted(set(pts))
+    items = [genc(w) for w in pts]
+    if items and rng.random() < 0.15:
+        bad = "bad" if (not leaf or rng.random() < 0.6) else "nested"
+        if k in ("set", "frozenset", "dict", "dict_keys"):
+            bad = "bad"
+            if "bad" in items:
+                bad = None
+        if bad:
+            items.insert(rng.randint(0, len(items)), bad)
+    return {"k": k, "items": items}
+
+
+def gen_call(rng, maxlen, big):
+    for _ in range(200):
+        if rng.random() < 0.5:
+            f = gen_filter(rng, min(maxlen, 5))
+            if all(gdec(x) == (0, 0) for x in f["a"]):
+                continue
+            tree = dict(f, cls=rng.choice(["ZFilter", "LinearFilter", "zexpr"]) if f["b"] else "ZFilter")
+            leaf = True
+        else:
+            key = rng.choice(["cascade", "parallel"])
+            nm = rng.choice([0, 1, 2, 2, 3]) if rng.random() < 0.08 else rng.choice([1, 2, 2, 3])
+            tree = {key: [gen_tree_node(rng, maxlen, 1) for _ in range(nm)], "form": rng.choice(["star", "list"])}
+            ms = tree[key]
+            if tree["form"] == "star" and len(ms) == 1 and (ms[0].get("raw") or is_bank(ms[0])):
+                tree["form"] = "list"
+            leaf = False
+        x = gen_desc(rng, big, leaf)
+        y = gen_desc(rng, big, leaf, 0.6)
+        name = rng.choice(EXTRA_NAMES)
+        shape = rng.choice(["pos"] * 6 + ["kw"] * 8 + ["class_pos"] * 2 + ["class_kw"] * 3 + ["self_kw"] * 2 +
+                           ["self_kw_rev"] * 2 + ["pos+extra_kw"] * 2 + ["kw+extra_kw", "extra_kw+kw", "both",
+                                                                      "extra_pos", "missing", "wrong_kw",
+                                                                      "class_missing_self"])
+        via, args, kwargs = "method", [], []
+        if shape == "pos":
+            args = [x]
+        elif shape == "kw":
+            kwargs = [["freq", x]]
+        elif shape == "class_pos":
+            via, args = "class", ["self", x]
+        elif shape == "class_kw":
+            via, args, kwargs = "class", ["self"], [["freq", x]]
+        elif shape == "self_kw":
+            via, kwargs = "class", [["self", "self"], ["freq", x]]
+        elif shape == "self_kw_rev":
+            via, kwargs = "class", [["freq", x], ["self", "self"]]
+        elif shape == "pos+extra_kw":
+            args, kwargs = [x], [[name, y]]
+        elif shape == "kw+extra_kw":
+            kwargs = [["freq", x], [name, y]]
+        elif shape == "extra_kw+kw":
+            kwargs = [[name, y], ["freq", x]]
+        elif shape == "both":
+            args, kwargs = [x], [["freq", y]]
+        elif shape == "extra_pos":
+            args = [x, y]
+        elif shape == "missing":
+            pass
+        elif shape == "wrong_kw":
+            kwargs = [[name, x]]
+        elif shape == "class_missing_self":
+            via, kwargs = "class", [["freq", x]]
+        pts = []
+        for d in args + [v for _, v in kwargs]:
+            pts += desc_pts(d)
+        if not tree_ok(tree, pts) or not tree_all(tree, lambda f: any(gdec(v) != (0, 0) for v in f["a"])):
+            continue
+        return {"entry": "call", "tree": tree, "shape": shape, "via": via, "args": args, "kwargs": kwargs,
+                "reads": max([len(d.get("items", [])) for d in [x, y]]) + 2, "wrap": rng.random() < 0.5}
+    return None
+
+
+DFT_BLK_KINDS = {"list": "sized", "tuple": "sized", "deque": "sized", "range": "sized", "dict": "sized",
+                 "gen": "once", "list_iterator": "once", "map": "once", "stream": "once"}
+DFT_FREQ_KINDS = ("list", "tuple", "deque", "gen", "stream", "set", "dict", "map", "float", "none")
+DFT_NORM = ("omitted", "True", "False", "1", "0", "None", "yes", "empty-str", "2.5", "0.0", "empty-list")
+DFT_TRUTH = {"True": True, "False": False, "1": True, "0": False, "None": False, "yes": True, "empty-str": False,
+             "2.5": True, "0.0": False, "empty-list": False}
+
+
+def gen_dftcall(rng, maxlen, big):
+    btype = rng.choice(["int", "int", "frac", "dyadic", "gauss"])
+    bkind = rng.choice(list(DFT_BLK_KINDS))
+    n = rng.randint(0, maxlen) if rng.random() < 0.85 else 0
+    if bkind == "range":
+        blk, btype = list(range(n)), "int"
+    else:
+        blk = [rand_coeff(rng, btype) for _ in range(n)]
+        if bkind == "dict":
+            blk, btype = sorted(set(rng.randint(-9, 9) for _ in range(n))), "int"
+    fkind = rng.choice(DFT_FREQ_KINDS[:-2] * 3 + DFT_FREQ_KINDS[-2:])
+    pts = [rand_point(rng, big) for _ in range(rng.randint(0, 4))]
+    if rng.random() < 0.4:
+        pts.append(SPECIAL["0"])
+    if fkind in ("set", "dict"):
+        pts = sorted(set(pts))[:1 if fkind == "set" else None]
+    if fkind in ("float", "none"):
+        pts = pts[:1] or [SPECIAL["pi"]]
+    norm = rng.choice(DFT_NORM)
+    names = ["blk", "freqs"] + ([] if norm == "omitted" else ["normalize"])
+    npos = rng.randint(0, len(names))
+    kw = names[npos:]
+    rng.shuffle(kw)
+    args = names[:npos]
+    r = rng.random()
+    if r < 0.04:
+        kw = [k for k in kw if k != "freqs"] if "freqs" in kw else kw + ["freqs"]       # missing / given twice
+    elif r < 0.07:
+        kw = kw + [rng.choice(["norm", "freq", "normalise", "block"])]
+    elif r < 0.09 and npos == len(names):
+        args = args + ["extra"]
+    return {"entry": "dftcall", "blk": blk, "btype": btype, "bkind": bkind, "fkind": fkind,
+            "pts": [genc(w) for w in pts], "norm": norm, "args": args, "kw": kw, "wrap": rng.random() < 0.5}
+
+
+
 def malformed(rng):
     out = []
     for a in ([0], [0, 0], []):
@@ -950,17 +1167,17 @@ def generate(rng, tier, scale=1):
     quick = tier == "quick"
     maxlen = 7 if quick else 11
     big = not quick
-    n = (6000 if quick else 110000) * scale
+    n = (6000 if quick else 100000) * scale
     cases = []
     if scale == 1:
         cases += malformed(rng)
         cases += grid(2 if quick else 3)
-    gens = [(gen_freq, 32), (gen_freqd, 10), (gen_bank, 12), (gen_tree, 10), (gen_dft, 13), (gen_fir, 11),
-            (gen_expo, 12)]
+    gens = [(gen_freq, 26), (gen_freqd, 9), (gen_bank, 10), (gen_tree, 9), (gen_dft, 9), (gen_fir, 9),
+            (gen_expo, 10), (gen_call, 24), (gen_dftcall, 10)]
     total = sum(wt for _, wt in gens)
     for g, wt in gens:
         for _ in range(n * wt // total):
-            c = g(rng, (maxlen if g is not gen_dft else (16 if quick else 48)), big)
+            c = g(rng, (maxlen if g not in (gen_dft, gen_dftcall) else (16 if quick else 48)), big)
             if c is not None:
                 cases.append(c)
     for _ in range((N_HIST_QUICK if quick else N_HIST_THOROUGH) * scale):
@@ -1023,6 +1240,13 @@ def observe(kind, res, npts):
     else:
         k, vals = type(res).__name__, list(res)
     return {"kind": k, "vals": [cnum(v) for v in vals]}
+
+
+def fr(obj, c, x):
+    """obj.freq_response(x), the frequency object by position or by keyword (Props.C12.freq_call_shapes: the same)"""
+    if c.get("by") == "kw":
+        return obj.freq_response(freq=x)
+    return obj.freq_response(x)
 
 
 def omegas(c):
@@ -1128,7 +1352,7 @@ def impl_hist(c):
                 bank[o["i"]], bank[o["j"]] = bank[o["j"]], bank[o["i"]]
             elif k == "freq":
                 oms = [omega_of(gdec_pt(p), wrap) for p in o["pts"]]
-                steps.append(observe(o["kind"], bank.freq_response(container(o["kind"], oms)), len(oms)))
+                steps.append(observe(o["kind"], fr(bank, o, container(o["kind"], oms)), len(oms)))
                 continue
             elif k == "polys":
                 num, den = bank.numpoly, bank.denpoly
@@ -1157,32 +1381,234 @@ def impl_hist(c):
     return {"steps": steps}
 
 
+# ----------------------------------------------------------------------------
+# impl of the call entries
+# ----------------------------------------------------------------------------
+def build_obj(d, wrap):
+    """the python object of a descriptor"""
+    import itertools
+    from audiolazy import Stream, thub
+    k = d["k"]
+
+    def num(e):
+        if e == "bad":
+            return None
+        if e == "nested":
+            return [0.0]
+        return omega_of(gdec_pt(e), wrap)
+    if PYKINDS[k] in ("scalar", "str"):
+        if k == "float":
+            return num(d["self"])
+        return {"int0": 0, "frac0": F(0), "false": False, "complex0": 0j, "negzero": -0.0, "none": None,
+                "str": "abc"}[k]
+    oms = [num(e) for e in d["items"]]
+    if k == "list":
+        return list(oms)
+    if k == "tuple":
+        return tuple(oms)
+    if k == "deque":
+        return deque(oms)
+    if k == "sublist":
+        return SubList(oms)
+    if k == "subtuple":
+        return SubTuple(oms)
+    if k == "set":
+        return set(oms)
+    if k == "frozenset":
+        return frozenset(oms)
+    if k == "gen":
+        return (x for x in oms)
+    if k == "map":
+        return map(lambda x: x, oms)
+    if k == "filter":
+        return filter(lambda x: True, oms)
+    if k == "range":
+        return range(len(oms))
+    if k == "enumerate":
+        return enumerate(oms)
+    if k == "zip":
+        return zip(oms)
+    if k == "zip_longest":
+        return itertools.zip_longest(oms)
+    if k == "stream":
+        return Stream(list(oms))
+    if k == "substream":
+        return type("SubStream", (Stream,), {})(list(oms))
+    if k == "thub":
+        return thub(list(oms), 1)
+    if k == "chain":
+        return itertools.chain(oms[:1], oms[1:])
+    if k == "dict":
+        return dict((x, i) for i, x in enumerate(oms))
+    if k == "bytes":
+        return bytes(len(oms))
+    if k == "bytearray":
+        return bytearray(len(oms))
+    if k == "list_iterator":
+        return iter(list(oms))
+    if k == "tuple_iterator":
+        return iter(tuple(oms))
+    if k == "dict_keys":
+        return dict((x, i) for i, x in enumerate(oms)).keys()
+    if k == "dict_values":
+        return dict(enumerate(oms)).values()
+    if k == "reversed":
+        return reversed(list(reversed(oms)))
+    raise ValueError(k)
+
+
+def build_target(tree):
+    if is_bank(tree):
+        return build_tree(tree)
+    return mk_filter(tree, tree.get("cls", "ZFilter"))
+
+
+def impl_call(c):
+    import warnings
+    with warnings.catch_warnings():
+        warnings.simplefilter("ignore")         # thub: MemoryLeakWarning of an unused copy
+        return _impl_call(c)
+
+
+def _impl_call(c):
+    import itertools
+    from audiolazy import Stream
+    filt = build_target(c["tree"])
+    wrap = c.get("wrap", False)
+    objs = {}
+
+    def obj(i, d):
+        if d == "self":
+            return filt
+        objs[i] = build_obj(d, wrap)
+        return objs[i]
+    args = [obj(("a", i), d) for i, d in enumerate(c["args"])]
+    kwargs = dict((k, obj(("k", k), d)) for k, d in c["kwargs"])
+    func = filt.freq_response if c["via"] == "method" else type(filt).freq_response
+    try:
+        res = func(*args, **kwargs)
+    except Exception as ex:
+        return {"err": err_kind(ex)}
+    # which object did the wrapper look at?  (reported by type identity only)
+    npos = len(args) + (1 if c["via"] == "method" else 0)
+    if npos > 1:
+        located = args[1 - (1 if c["via"] == "method" else 0)]
+    else:
+        located = kwargs.get("freq")
+    if isinstance(res, (types.GeneratorType, Stream, itertools.chain)):
+        kind = ("someGen" if isinstance(res, types.GeneratorType) else
+                "stream" if type(res) is Stream else
+                "chain" if type(res) is itertools.chain else "OTHER:" + type(res).__name__)
+        itr = iter(res)
+        reads = []
+        for _ in range(c["reads"]):
+            try:
+                reads.append({"item": cnum(next(itr))})
+            except StopIteration:
+                reads.append("stop")
+            except Exception as ex:
+                reads.append({"exc": err_kind(ex)})
+        return {"lazy": kind, "reads": reads}
+    if isinstance(res, (complex, float, int)):
+        return {"value": cnum(res)}
+    try:
+        vals = [cnum(v) for v in res]
+    except Exception as ex:
+        return {"other": type(res).__name__, "err_iter": err_kind(ex)}
+    return {"cast": type(res).__name__, "same_type": type(res) is type(located), "vals": vals}
+
+
+def impl_dftcall(c):
+    from audiolazy import dft, Stream
+    wrap = c.get("wrap", False)
+    data = [py_coeff(x, c["btype"]) for x in c["blk"]]
+    bk = c["bkind"]
+    blk = {"list": list, "tuple": tuple, "deque": deque, "range": lambda d: range(len(d)),
+           "dict": lambda d: dict((x, None) for x in d), "gen": lambda d: (x for x in d),
+           "list_iterator": lambda d: iter(list(d)), "map": lambda d: map(lambda x: x, d),
+           "stream": lambda d: Stream(list(d))}[bk](data)
+    oms = [omega_of(gdec_pt(p), wrap) for p in c["pts"]]
+    fk = c["fkind"]
+    freqs = {"list": list, "tuple": tuple, "deque": deque, "gen": lambda d: (x for x in d),
+             "stream": lambda d: Stream(list(d)), "set": set, "dict": lambda d: dict((x, 1) for x in d),
+             "map": lambda d: map(lambda x: x, d), "float": lambda d: d[0], "none": lambda d: None}[fk](oms)
+    norm = {"True": True, "False": False, "1": 1, "0": 0, "None": None, "yes": "yes", "empty-str": "", "2.5": 2.5,
+            "0.0": 0.0, "empty-list": [], "omitted": None}[c["norm"]]
+    val = {"blk": blk, "freqs": freqs, "normalize": norm, "extra": 3}
+    args = [val[a] for a in c["args"]]
+    kwargs = dict((k, val.get(k, 7)) for k in c["kw"])
+    if len(kwargs) != len(c["kw"]):
+        return {"skip": True}
+    try:
+        res = dft(*args, **kwargs)
+    except Exception as ex:
+        return {"err": err_kind(ex)}
+    if type(res) is not list:
+        return {"other": type(res).__name__}
+    return {"vals": [cnum(v) for v in res]}
+
+
+class ImplTimeout(BaseException):
+    pass
+
+
+_TIMEOUTS = [0]
+
+
 def impl(c):
+    """the observation of the real code, under a watchdog: a call that should be lazy but reads an endless
+    Stream to its end must show as a disagreement (`OTHER:ImplTimeout`), not hang the check"""
+    import signal
+
+    def on_alarm(signum, frame):
+        raise ImplTimeout()
+    try:
+        old = signal.signal(signal.SIGALRM, on_alarm)
+    except ValueError:                          # not in the main thread: no watchdog
+        return _impl(c)
+    # generous at first; once the code under test has hung twice every further case gets a short leash, so
+    # that a tree that hangs on a whole class of inputs is still reported within the time budget
+    signal.setitimer(signal.ITIMER_REAL, 2.0 if _TIMEOUTS[0] < 2 else 0.15)
+    try:
+        return _impl(c)
+    except ImplTimeout:
+        _TIMEOUTS[0] += 1
+        return {"err": "OTHER:ImplTimeout"}
+    finally:
+        signal.setitimer(signal.ITIMER_REAL, 0)
+        signal.signal(signal.SIGALRM, old)
+
+
+def _impl(c):
     import audiolazy
     from audiolazy import ZFilter, CascadeFilter, ParallelFilter, dft
     try:
         e = c["entry"]
         if e == "hist":
             return impl_hist(c)
+        if e == "call":
+            return impl_call(c)
+        if e == "dftcall":
+            return impl_dftcall(c)
         if e == "freq":
             filt = mk_filter(c, c.get("cls", "ZFilter"))
             oms = omegas(c)
-            return observe(c["kind"], filt.freq_response(container(c["kind"], oms)), len(oms))
+            return observe(c["kind"], fr(filt, c, container(c["kind"], oms)), len(oms))
         if e == "freqd":
             ct = c["ctype"]
             filt = ZFilter(dict((k, py_coeff(x, ct)) for k, x in c["bt"]),
                            dict((k, py_coeff(x, ct)) for k, x in c["at"]))
             oms = omegas(c)
-            return observe(c["kind"], filt.freq_response(container(c["kind"], oms)), len(oms))
+            return observe(c["kind"], fr(filt, c, container(c["kind"], oms)), len(oms))
         if e == "tree":
             bank = build_tree(c["tree"])
             oms = omegas(c)
-            return observe(c["kind"], bank.freq_response(container(c["kind"], oms)), len(oms))
+            return observe(c["kind"], fr(bank, c, container(c["kind"], oms)), len(oms))
         if e == "bank":
             members = [mk_filter(f) for f in c["bank"]]
             bank = (CascadeFilter if c["bkind"] == "cascade" else ParallelFilter)(*members)
             oms = omegas(c)
-            return observe(c["kind"], bank.freq_response(container(c["kind"], oms)), len(oms))
+            return observe(c["kind"], fr(bank, c, container(c["kind"], oms)), len(oms))
         if e == "dft":
             blk = [py_coeff(x, c["btype"]) for x in c["blk"]]
             blk = tuple(blk) if c.get("cont") == "tuple" else blk
@@ -1209,8 +1635,50 @@ def impl(c):
         return {"err": err_kind(ex)}
 
 
+def desc_req(d):
+    if d == "self":
+        return "self"
+    r = {"kind": PYKINDS[d["k"]]}
+    if "self" in d:
+        r["self"] = d["self"]
+    r["items"] = d.get("items", [])
+    return r
+
+
+def tree_req(tree):
+    if is_bank(tree):
+        k = bank_key(tree)
+        return {k: [tree_req(m) for m in tree[k]]}
+    return {"b": tree["b"], "a": tree["a"]}
+
+
+def dft_req(c):
+    truth = DFT_TRUTH.get(c["norm"])
+
+    def tag(name):
+        if name == "normalize":
+            return truth
+        return name if name in ("blk", "freqs") else "other"
+    kw = c["kw"]
+    if len(set(kw)) != len(kw):
+        kw = list(dict.fromkeys(kw))
+    # a surplus positional object in third place IS the normalize argument (the int 3: truthy)
+    args = [(True if (a == "extra" and i == 2) else tag(a)) for i, a in enumerate(c["args"])]
+    # a keyword that repeats a positional parameter: python raises TypeError (multiple values); the
+    # binding model sees the same: the name is not among the parameters still to be filled
+    return {"entry": "dftcall", "blk": c["blk"], "bk": DFT_BLK_KINDS[c["bkind"]],
+            "ws": None if c["fkind"] in ("float", "none") else c["pts"],
+            "args": args, "kwargs": [[k, tag(k)] for k in kw]}
+
+
 def request(c):
     e = c["entry"]
+    if e == "call":
+        return {"entry": "call", "tree": tree_req(c["tree"]), "reads": c["reads"],
+                "args": (["self"] if c["via"] == "method" else []) + [desc_req(d) for d in c["args"]],
+                "kwargs": [[k, desc_req(d)] for k, d in c["kwargs"]]}
+    if e == "dftcall":
+        return dft_req(c)
     if e == "freq":
         return {"entry": "freq", "b": c["b"], "a": c["a"], "ws": c["pts"]}
     if e == "freqd":
@@ -1230,7 +1698,7 @@ def request(c):
         objs = [({bank_key(o): o[bank_key(o)]} if is_bank(o) else {"b": o["b"], "a": o["a"]}) for o in c["objs"]]
         ops = []
         for o in c["ops"]:
-            r = dict((k, v) for k, v in o.items() if k not in ("kind", "pts"))
+            r = dict((k, v) for k, v in o.items() if k not in ("kind", "pts", "by"))
             if "pts" in o:
                 r["ws"] = o["pts"]
             ops.append(r)
@@ -1363,9 +1831,76 @@ def hist_problems(c, io, drv):
     return out
 
 
+def cmp_out(io, d, tag, out, what):
+    """impl observation of a call vs one side (model / spec) of the driver's answer"""
+    if d.get("unmodelled"):
+        return
+    def bad(msg):
+        out.append((tag, "%s: %s; impl=%r %s=%r" % (what, msg, io, tag, d)))
+    if "err" in d:
+        if io.get("err") != d["err"]:
+            bad("%s predicts %s" % (tag, d["err"]))
+        return
+    if "err" in io:
+        return bad("impl raised %s" % io["err"])
+    if "value" in d:
+        if "value" not in io or not gclose(io["value"], d["value"], TOL):
+            bad("scalar result differs")
+        return
+    if "cast" in d:
+        if "cast" not in io:
+            return bad("expected an eager container")
+        if not io["same_type"]:
+            return bad("result container is a %s, not the type of the frequency object" % io["cast"])
+        ok = set_close(io["vals"], d["vals"], TOL) if d["cast"] == "hash" else lclose(io["vals"], d["vals"], TOL)
+        if not ok:
+            bad("values differ")
+        return
+    if "lazy" in d:
+        if io.get("lazy") != d["lazy"]:
+            return bad("expected a lazy %s" % d["lazy"])
+        if len(io["reads"]) != len(d["reads"]):
+            return bad("number of reads")
+        for ri, rd in zip(io["reads"], d["reads"]):
+            if rd == "stop" or ri == "stop":
+                if ri != rd:
+                    return bad("reads differ (StopIteration)")
+            elif "exc" in rd or "exc" in ri:
+                if ri.get("exc") != rd.get("exc"):
+                    return bad("reads differ (exception)")
+            elif not gclose(ri["item"], rd["item"], TOL):
+                return bad("reads differ (value)")
+        return
+    bad("unexpected driver answer")
+
+
+def call_pts(c):
+    pts = []
+    for d in c["args"] + [v for _, v in c["kwargs"]]:
+        pts += desc_pts(d)
+    return pts
+
+
 def compare(c, io, drv):
     out = []
     e = c["entry"]
+    if e == "call":
+        if not tree_ok(c["tree"], call_pts(c)):
+            return []
+        for tag in ("model", "spec"):
+            cmp_out(io, drv[tag], tag, out, "call %s" % c["shape"])
+        return out
+    if e == "dftcall":
+        if io.get("skip"):
+            return []
+        for tag in ("model", "spec"):
+            d = drv[tag]
+            if isinstance(d, dict):
+                if io.get("err") != d.get("err"):
+                    out.append((tag, "dft call: %s predicts %r, impl %r" % (tag, d, io)))
+            elif "vals" not in io or not lclose(io["vals"], d, TOL):
+                out.append((tag, "dft call differs from %s: impl=%r %s=%r" % (tag, io, tag, d)))
+        return out
     if e == "hist":
         return [(a, b) for a, b, _ in hist_problems(c, io, drv)]
     if e in ("freq", "freqd", "bank", "tree"):
@@ -1422,6 +1957,11 @@ def nontrivial(c, io):
                    for st in io.get("steps", []) for v in (st.get("vals") or st.get("out") or []))
     if "err" in io:
         return True
+    if c["entry"] == "call":
+        vals = ([io["value"]] if "value" in io else []) + io.get("vals", []) + \
+               [r["item"] for r in io.get("reads", []) if isinstance(r, dict) and "item" in r]
+        return any(v == "nan" or v[0] != 0 or v[1] != 0 for v in vals) or \
+            any(isinstance(r, dict) and "exc" in r for r in io.get("reads", []))
     vals = io.get("vals") or io.get("out") or []
     return any(v == "nan" or v[0] != 0 or v[1] != 0 for v in vals)
 
@@ -1448,6 +1988,7 @@ def tally_hist(eng, c, io):
                 eng.count("hist_use_not_compared", k)
             if k == "freq":
                 eng.count("hist_container", o["kind"])
+                eng.count("hist_frequency_passed_by", o.get("by", "pos"))
             if snap is not None:
                 eng.count("hist_depth_at_use", tree_depth(snap))
                 if is_bank(snap):
@@ -1484,7 +2025,33 @@ def tally(eng, c, io):
         return tally_hist(eng, c, io)
     if "err" in io:
         eng.count("impl_error", e + ":" + io["err"])
+    if e == "call":
+        eng.count("call_shape", c["shape"])
+        eng.count("call_target", ("filter:" + c["tree"].get("cls", "ZFilter")) if not is_bank(c["tree"]) else
+                  "%s:depth%d" % (bank_key(c["tree"]), tree_depth(c["tree"])))
+        for d in c["args"] + [v for _, v in c["kwargs"]]:
+            if d != "self":
+                eng.count("call_object", d["k"])
+                eng.count("call_object_size", "scalar" if "self" in d else min(len(d["items"]), 5))
+                if any(x in ("bad", "nested") for x in d.get("items", [])):
+                    eng.count("call_object_has_non_number", d["k"])
+        res = ("raises:" + io["err"]) if "err" in io else ("lazy:" + io["lazy"]) if "lazy" in io else \
+            ("cast:" + io["cast"]) if "cast" in io else "value" if "value" in io else "other"
+        eng.count("call_result", res)
+        if "lazy" in io:
+            eng.count("call_lazy_reads", "exception-mid-stream" if any(isinstance(r, dict) and "exc" in r
+                                                                        for r in io["reads"]) else "clean")
+        eng.count("regime", "float(tol 1e-9)")
+    elif e == "dftcall":
+        eng.count("dft_blk_kind", c["bkind"])
+        eng.count("dft_freqs_kind", c["fkind"])
+        eng.count("dft_normalize_spelling", c["norm"] + (":positional" if "normalize" in c["args"] else
+                                                          ":keyword" if "normalize" in c["kw"] else ""))
+        eng.count("dft_call_shape", "%d-positional+%s" % (len(c["args"]), ",".join(c["kw"]) or "-"))
+        eng.count("dft_call_result", ("raises:" + io["err"]) if "err" in io else "list")
+        eng.count("regime", "float(tol 1e-9)")
     if e in ("freq", "freqd", "bank", "tree"):
+        eng.count("frequency_passed_by", c.get("by", "pos"))
         eng.count("container", c["kind"])
         eng.count("n_points", min(len(c["pts"]), 8))
         for p in c["pts"]:
@@ -1639,6 +2206,8 @@ def shrink_hist(c):
                     yield put(dict(o, pts=o["pts"][:j] + o["pts"][j + 1:]))
         if o["op"] == "freq" and o["kind"] not in ("list", "scalar"):
             yield put(dict(o, kind="list"))
+        if o["op"] == "freq" and o.get("by") == "kw":
+            yield put(dict((k, v) for k, v in o.items() if k != "by"))
         if o["op"] == "call":
             for xs in _shrink_list(o["xs"]):
                 yield put(dict(o, xs=xs))
@@ -1682,6 +2251,47 @@ def shrink(c):
             if hist_valid(x):
                 yield x
         return
+    if e == "call":
+        def subst(i, kw, d2):
+            if kw:
+                return dict(c, kwargs=c["kwargs"][:i] + [[c["kwargs"][i][0], d2]] + c["kwargs"][i + 1:])
+            return dict(c, args=c["args"][:i] + [d2] + c["args"][i + 1:])
+        for kw, seq in ((False, c["args"]), (True, [v for _, v in c["kwargs"]])):
+            for i, d in enumerate(seq):
+                if d == "self" or "items" not in d:
+                    continue
+                for j in range(len(d["items"])):
+                    yield subst(i, kw, dict(d, items=d["items"][:j] + d["items"][j + 1:]))
+                if d["k"] not in ("list", "gen") and PYKINDS[d["k"]] in ("seq", "someGen", "stream", "hash"):
+                    yield subst(i, kw, dict(d, k="gen" if PYKINDS[d["k"]] in ("someGen", "stream") else "list"))
+        if is_bank(c["tree"]):
+            for t in _shrink_tree(c["tree"]):
+                if not is_bank(t):
+                    t = dict(t, cls="ZFilter")
+                yield dict(c, tree=t)
+        else:
+            for b in _shrink_list(c["tree"]["b"]):
+                yield dict(c, tree=dict(c["tree"], b=b, cls="ZFilter"))
+            for a in _shrink_list(c["tree"]["a"]):
+                if a and any(gdec(x) != (0, 0) for x in a):
+                    yield dict(c, tree=dict(c["tree"], a=a, cls="ZFilter"))
+        if c.get("wrap"):
+            yield dict(c, wrap=False)
+        return
+    if e == "dftcall":
+        for blk in _shrink_list(c["blk"]):
+            if c["bkind"] not in ("range", "dict"):
+                yield dict(c, blk=blk)
+        for i in range(len(c["pts"])):
+            if len(c["pts"]) > 1 or c["fkind"] not in ("float", "none"):
+                yield dict(c, pts=c["pts"][:i] + c["pts"][i + 1:])
+        if c["bkind"] not in ("list", "gen", "range", "dict"):
+            yield dict(c, bkind="list" if DFT_BLK_KINDS[c["bkind"]] == "sized" else "gen")
+        if c["fkind"] not in ("list", "float", "none"):
+            yield dict(c, fkind="list")
+        if c.get("wrap"):
+            yield dict(c, wrap=False)
+        return
     if e in ("freq", "freqd", "bank", "tree", "dft", "fir"):
         pts = c["pts"]
         for i in range(len(pts)):
@@ -1691,6 +2301,8 @@ def shrink(c):
             yield dict(c, wrap=False)
     if e in ("freq", "freqd", "bank", "tree") and c["kind"] not in ("list", "scalar"):
         yield dict(c, kind="list")
+    if e in ("freq", "freqd", "bank", "tree") and c.get("by") == "kw":
+        yield dict(c, by="pos")
     if e == "tree":
         for t in _shrink_tree(c["tree"]):
             if "cascade" in t or "parallel" in t:
@@ -1757,6 +2369,8 @@ def neighbours(c):
             if o["op"] == "freq":
                 yield dict(c, ops=c["ops"] + [dict(o, t=0)])
         return
+    if e in ("call", "dftcall"):
+        return
     if e == "freq":
         for key in ("b", "a"):
             xs = c[key]
@@ -1797,6 +2411,15 @@ def classify(c, io, drv):
         changed = any(x["op"] in MUT_OPS for x in c["ops"][:i])
         tag = "hist-%s:%s%s" % (bank_key(c["objs"][o["t"]]), o["op"], "-after-list-op" if changed else "")
         return "%s:%s" % (tag, ("raises-" + st["err"]) if "err" in st else "value")
+    if e == "call":
+        d = drv.get("spec", {})
+        exp = ("raises-" + d["err"]) if "err" in d else ("lazy-" + d["lazy"]) if "lazy" in d else \
+            ("cast-" + d["cast"]) if "cast" in d else "value"
+        got = ("raises-" + io["err"]) if "err" in io else ("lazy-" + io["lazy"]) if "lazy" in io else \
+            ("cast-" + io["cast"]) if "cast" in io else "value"
+        return "call:%s:expected-%s:got-%s" % (c["shape"], exp, got)
+    if e == "dftcall":
+        return "dftcall:%s:%s" % (c["bkind"], ("raises-" + io["err"]) if "err" in io else "value")
     tag = e if e != "bank" else c["bkind"]
     if e == "tree":
         tag = "tree-" + ("cascade" if "cascade" in c["tree"] else "parallel")
